@@ -11,5 +11,6 @@ let () =
   | [| _; "flags" |] -> Drv_flags.run ()
   | [| _; "gvtphase"; _ |] -> Drv_gvt.run ()
   | [| _; "alloc"; _; _ |] -> Drv_alloc.run ()
+  | [| _; "worker"; _; _ |] -> Drv_worker.run ()
   | a when Array.length a >= 6 && a.(1) = "seq" -> Drv_seq.run ()
   | _ -> prerr_endline "usage: model_driver <sub>"; exit 2
